@@ -24,6 +24,11 @@ R2  A reference without DOCREF inside layer L of container C names the object ca
     id in L, else an object made visible to L by one of L's IMPORT-REFs or carried by C
     (a sibling layer of the same file).  When an imported id collides with an id of C, or two
     imports carry the id, either object is accepted (the order is not fixed by the statement).
+R2b Sibling layers of one container may re-use a local id for layer-local objects (fragments are
+    (container, layer) pairs; the quantifier names "identical local IDs in different fragments").
+    A reference without DOCREF from inside layer L then names L's OWN object (innermost fragment
+    first).  What such an id names from outside the carrying layers (no DOCREF from a sibling
+    that does not carry it, DOCREF to the container fragment) is not decided -> loose.
 R3  IMPORT-REFs extend the importing layer only, and are not transitive.
 R4  A short-name reference names the unique object of that short name in its context: the
     owning layer's view after value inheritance (local objects override inherited ones, per
@@ -166,6 +171,10 @@ def iter_sites(layer):
 # ---------------------------------------------------------------------------
 # the resolver
 # ---------------------------------------------------------------------------
+class ContIds(dict):
+    """ids of a container document: local id -> list of uids (several when sibling layers re-use it)"""
+
+
 class Model:
     def __init__(self, case: dict, sites: bool = True):
         self.case = case
@@ -196,8 +205,12 @@ class Model:
         self.obj[uid] = {"kind": kind, "layer": layer, "container": cont, "sn": o.get("sn"), "id": o.get("id")}
         if o.get("id") is not None:
             for m in idmaps:
+                if isinstance(m, ContIds):
+                    # container-wide fragment: sibling layers may re-use an id (R2b)
+                    m.setdefault(o["id"], []).append(uid)
+                    continue
                 if o["id"] in m:
-                    raise ValueError(f"id {o['id']!r} is not unique within its document")
+                    raise ValueError(f"id {o['id']!r} is not unique within its fragment")
                 m[o["id"]] = uid
 
     def _index(self):
@@ -214,7 +227,7 @@ class Model:
                 raise ValueError("document/layer short names must be unique")
             names.add(c["sn"])
             self.cont[c["sn"]] = c
-            cm = self.ids_cont[c["sn"]] = {}
+            cm = self.ids_cont[c["sn"]] = ContIds()
             self._reg("container", c, None, c["sn"], [cm])
             for l in c["layers"]:
                 if l["sn"] in names:
@@ -260,7 +273,12 @@ class Model:
             if frag is None:
                 return "bad", [], "unknown-docref-fragment", "docref"
             if rid in frag:
-                return "ok", [frag[rid]], "", "docref"
+                v = frag[rid]
+                if isinstance(v, list):
+                    if len(v) > 1:
+                        return "loose", list(v), "container-docref-to-id-of-several-layers", "docref"
+                    v = v[0]
+                return "ok", [v], "", "docref"
             # the id is not carried by the named fragment.  If the fragment is the referring
             # layer itself (or its container) and the id is only visible there through an
             # import of the referring layer, the outcome is not fixed by R1/R2.
@@ -281,14 +299,14 @@ class Model:
                 if u is not None and u not in allowed:
                     allowed.append(u)
                     via = "import"
-        cu = self.ids_cont[self.layer_cont[layer_sn]].get(rid)
-        if cu is not None and cu not in allowed:
-            allowed.append(cu)
-            via = via or "container"
+        for cu in self.ids_cont[self.layer_cont[layer_sn]].get(rid, []):
+            if cu not in allowed:
+                allowed.append(cu)
+                via = via or "container"
         if not allowed:
             return "bad", [], "id-not-visible", "none"
         if len(allowed) > 1:
-            return "multi", allowed, "import-collides", via
+            return "multi", allowed, "id-carried-by-several-visible-fragments", via
         return "ok", allowed, "", via
 
     def _resolve_structure(self):
@@ -421,10 +439,12 @@ class Model:
                     site["via"] = via
                     site["doc"] = ref["doc"][1] if ref.get("doc") else "none"
                     site["ref_id"] = ref["id"]
+                    # R2b: the id is also carried by a sibling layer of the same container
+                    site["sibling_reuse"] = len(self.ids_cont[c["sn"]].get(ref["id"], [])) > 1
                     if st == "multi":
                         # an imported id collides with an id of the container (or two imports carry
                         # it): which one is named is not fixed by the statement -> nothing asserted
-                        st, why = "loose", "imported-id-collides"
+                        st, why = "loose", "id-carried-by-several-visible-fragments"
                         site["multi"] = True
                 else:
                     params = None
@@ -482,7 +502,9 @@ class Model:
                 if n >= 2:
                     collide = True
                     break
-        return {"bad": bad, "loose": loose, "conflicts": list(self.conflicts), "collide": collide}
+        reuse = any(len(v) > 1 for m in self.ids_cont.values() for v in m.values())
+        return {"bad": bad, "loose": loose, "conflicts": list(self.conflicts), "collide": collide,
+                "sibling_reuse": reuse}
 
 
 # ---------------------------------------------------------------------------
@@ -695,11 +717,12 @@ SN_POOL = {"dop": ["d_a", "d_b", "d_c"], "struct": ["s_a", "s_b"], "sfield": ["f
 
 
 class Gen:
-    def __init__(self, rnd, negative=None, big=False):
+    def __init__(self, rnd, negative=None, big=False, reuse=None):
         self.r = rnd
         self.uid = 0
         self.negative = negative
         self.big = big
+        self.reuse = reuse
 
     def nuid(self):
         self.uid += 1
@@ -781,15 +804,34 @@ class Gen:
                         ps.append({"sn": f"p{i}", "uid": self.nuid(), "kind": "TABLE-STRUCT", "_key": p["sn"]})
                         i += 1
         # ids: unique per container, deliberately colliding across containers (and specs)
+        reuse_case = self.reuse if self.reuse is not None else self.chance(35)
         for c in case["containers"]:
-            need = [c]
+            per_layer = []
             for l in c["layers"]:
-                need.append(l)
+                loc = []
                 for lk in LAYER_LISTS:
                     for o in l.get(lk, []):
-                        need.append(o)
-                        need.extend(p for p in o.get("params", []) if p["kind"] in ("TABLE-KEY", "LENGTH-KEY"))
-                        need.extend(o.get("rows", []))
+                        loc.append(o)
+                        loc.extend(p for p in o.get("params", []) if p["kind"] in ("TABLE-KEY", "LENGTH-KEY"))
+                        loc.extend(o.get("rows", []))
+                per_layer.append(loc)
+            if reuse_case and len(c["layers"]) >= 2:
+                # class "sibling-id-reuse" (R2b): every layer of the container draws the ids of its
+                # layer-local objects from the SAME small pool; the container and layer elements get
+                # ids outside that pool (unique in the document)
+                nloc = max(len(x) for x in per_layer) + r.randint(0, 2)
+                for loc in per_layer:
+                    pool = list(range(nloc))
+                    for o in loc:
+                        o["id"] = _idstr(pool.pop(r.randint(0, len(pool) - 1)))
+                elems = [c] + c["layers"]
+                pool = list(range(nloc, nloc + len(elems) + r.randint(0, 2)))
+                for o in elems:
+                    o["id"] = _idstr(pool.pop(r.randint(0, len(pool) - 1)))
+                top = nloc + len(elems) + 3
+                c["_spare"] = [_idstr(top + 1), _idstr(top + 2)]
+                continue
+            need = [c] + c["layers"] + [o for loc in per_layer for o in loc]
             n = len(need) + r.randint(0, 3 + len(need) // 2)     # gaps: ids that only other documents carry
             pool = list(range(n))
             for o in need:
@@ -870,7 +912,10 @@ class Gen:
                 opts.append((None, 4))
         if o["layer"] is not None:
             opts.append(([o["layer"], "LAYER"], 2))
-        opts.append(([o["container"], "CONTAINER"], 2))
+        cdoc = [o["container"], "CONTAINER"]
+        st, al, _, _ = m.resolve_id({"f": "id", "id": o["id"], "doc": cdoc}, layer["sn"], with_imports=with_imports)
+        if (st == "ok" and al == [uid]) or not opts:
+            opts.append((cdoc, 2))
         return {"f": "id", "id": o["id"], "doc": self.pick(opts)}
 
     def choose_target(self, m, layer, kinds, exclude_layers=()):
@@ -1167,5 +1212,5 @@ def _strip(o, keep_spare=False):
     return o
 
 
-def gen_case(rnd, negative=None, big=False):
-    return Gen(rnd, negative=negative, big=big).build()
+def gen_case(rnd, negative=None, big=False, reuse=None):
+    return Gen(rnd, negative=negative, big=big, reuse=reuse).build()
